@@ -55,6 +55,12 @@ TLayHostile == IsEvent("layhostile") /\ Ev.outcome \in {"value", "error"}
 \* SimpleGlyph.tla members through read_points_fast: n points or an error
 TSimpleGlyph == IsEvent("simpleglyph") /\ Ev.outcome \in {"value", "error"} /\ (Ev.outcome = "value" => Ev.points = Ev.n)
 
+\* CompositeGlyph.tla members: the full iterator yields a prefix of what the fast one yields, at most one record less,
+\* and count_and_instructions counts what the fast one yields
+TCompositeGlyph == /\ IsEvent("compositeglyph")
+                   /\ Ev.full <= Ev.fast /\ Ev.fast <= Ev.full + 1 /\ Ev.count = Ev.fast
+                   /\ \A i \in DOMAIN Ev.ids_full : Ev.ids_full[i] = Ev.ids_fast[i]
+
 TInit == l = 1
-TraceSpec == TInit /\ [][TCursor \/ TCmapIter \/ TPacked \/ TLayHostile \/ TSimpleGlyph]_l
+TraceSpec == TInit /\ [][TCursor \/ TCmapIter \/ TPacked \/ TLayHostile \/ TSimpleGlyph \/ TCompositeGlyph]_l
 =============================================================================
